@@ -57,7 +57,6 @@ type keptSlice struct {
 type flags struct {
 	emptyKeys     bool // nil / empty keys (nil key == empty key)
 	emptyVals     bool // nil / empty values
-	aliasSet      bool // scribble over the slices passed to Set / Batch.Set after the call returned
 	aliasGet      bool // scribble over slices returned by Get
 	aliasIter     bool // scribble over slices returned by Iterator.Key/Value
 	batchMisuse   bool // use a written / closed batch: must error
@@ -100,7 +99,7 @@ var contentOracle = map[string]bool{
 	"get-wrong-value": true, "get-nil-iff-absent": true, "has-wrong": true,
 	"iterator-wrong-keys-forward": true, "iterator-wrong-keys-reverse": true, "iterator-wrong-value": true,
 	"batch-write-wrong-state": true, "discarded-batch-took-effect": true, "batch-visible-before-write": true,
-	"dead-batch-changed-store": true, "set-not-readable": true,
+	"dead-batch-changed-store": true,
 }
 
 func nn(b []byte) []byte {
@@ -323,20 +322,6 @@ func (s *dsim) opSet(sync bool) {
 		if !bytes.Equal(kk, k) || !bytes.Equal(vv, v) {
 			s.fail(b, "set-modified-arguments", false, "Set(%q) modified the slices it was given", k)
 			return
-		}
-		if !s.fl.aliasSet {
-			return
-		}
-		// baseline first: the store equals the model; then the caller reuses its buffers
-		if !s.fullCheckQuiet(b) {
-			s.fail(b, "set-not-readable", false, "right after Set(%q) the content differs from the model's", k)
-			return
-		}
-		scribble(kk)
-		scribble(vv)
-		if !s.fullCheckQuiet(b) {
-			s.fail(b, "set-retains-caller-slice", true, "the caller overwrote the slices it had passed to Set(%q) after the call returned; the stored data changed", k)
-			s.resync(b)
 		}
 	})
 	s.r.Probe("sets")
@@ -825,8 +810,7 @@ func (s *dsim) opBatch() {
 	finish := c.Intn(4) // 0,1 Write  2 WriteSync  3 Close without writing
 	sized := c.Bool()
 	misuse := s.fl.batchMisuse && c.Bool()
-	scr := s.fl.aliasSet && c.Bool() && !s.curEmpty
-	s.c.Event("Batch %d ops finish=%d sized=%v misuse-probe=%v scribble=%v first=%q", n, finish, sized, misuse, scr, ops[0].k)
+	s.c.Event("Batch %d ops finish=%d sized=%v misuse-probe=%v first=%q", n, finish, sized, misuse, ops[0].k)
 	written := finish != 3
 	live := map[*bk]dbm.Batch{}
 	s.writers(func(b *bk) {
@@ -855,9 +839,9 @@ func (s *dsim) opBatch() {
 				s.fail(b, "batch-error", false, "staging del=%v %q: err=%v panic=%v", o.del, o.k, err, p)
 				return
 			}
-			if scr {
-				scribble(kk)
-				scribble(vv)
+			if !bytes.Equal(kk, o.k) || !bytes.Equal(vv, o.v) {
+				s.fail(b, "set-modified-arguments", false, "Batch.Set/Delete(%q) modified the slices it was given", o.k)
+				return
 			}
 		}
 		// staged ops are not visible before Write
@@ -897,18 +881,11 @@ func (s *dsim) opBatch() {
 		s.r.Probe("batches_discarded")
 	}
 	s.each(func(b *bk) {
-		if scr && !s.fullCheckQuiet(b) {
-			s.fail(b, "batch-set-retains-caller-slice", true, "the caller overwrote the slices it had passed to Batch.Set/Delete after the calls returned; what Write stored changed")
-			s.resyncOrDrop(b)
-			return
-		}
 		for _, o := range ops {
 			if !s.getEquals(b, o.k) {
 				switch {
 				case !written:
 					s.fail(b, "discarded-batch-took-effect", true, "a batch closed without Write changed key %q", o.k)
-				case scr:
-					s.fail(b, "batch-set-retains-caller-slice", true, "the caller overwrote the slices it had passed to Batch.Set/Delete(%q) after the call returned; what Write stored changed", o.k)
 				default:
 					s.fail(b, "batch-write-wrong-state", true, "after Write of a %d-op batch, key %q does not hold the last staged op's result", len(ops), o.k)
 				}
@@ -1277,7 +1254,7 @@ func runDBs(c *kernel.Choices, p kernel.Params) (res *kernel.Result) {
 	s := &dsim{c: c, r: kernel.NewResult(), p: p, prop: p.Property, model: map[string][]byte{}, snapM: map[int]map[string][]byte{}, known: map[string]bool{}}
 	// swarm: each corner of the contract is exercised in about half of the runs
 	s.fl = flags{
-		emptyKeys: c.Bool(), emptyVals: c.Bool(), aliasSet: c.Bool(), aliasGet: c.Bool(), aliasIter: c.Bool(),
+		emptyKeys: c.Bool(), emptyVals: c.Bool(), aliasGet: c.Bool(), aliasIter: c.Bool(),
 		batchMisuse: c.Bool(), invalidDomain: c.Bool(), invalidIter: c.Bool(), snapshots: !c.Chance(1, 4), reopen: !c.Chance(1, 4), roMutation: c.Bool(),
 	}
 	defer s.teardown()
